@@ -71,9 +71,22 @@ Proof. intros gs st c1 c2 e1 e2 s1 s2 o1 o2 Hr. exact (conv_invariance gs st c1 
 
 Lemma dtype_reachable : forall gs st code embed st' go,
   reachable st -> conv_geom gs st code embed = (st', Ok go) ->
-  file_at gs (go_ord0 go) 0 = Some (go_first go) /\
-  go_dtype go = (if g_unsigned16 (go_first go) && (bits_stored_of (go_first go) <? 16)
-                 then int16_str else g_dtype (go_first go)) /\
-  (go_dtype go = int16_str <->
-   (g_dtype (go_first go) = uint16_str /\ bits_stored_of (go_first go) < 16) \/ g_dtype (go_first go) = int16_str).
+  length (go_files go) = length (go_ord0 go) /\
+  (forall k, k < length (go_ord0 go) -> nth_error (go_files go) k = file_at gs (go_ord0 go) k) /\
+  exists dl,
+    map (fun g => dt_of_name (g_dtype g)) (go_files go) = map Some dl /\ dl <> [] /\
+    let j := result_type dl in
+    let bits := fold_left Nat.max (map bits_stored_of (go_files go)) 0 in
+    go_dtype go = (if dt_eqb j DUint16 && (bits <? 16) then dt_name DInt16 else dt_name j) /\
+    (forall d, In d dl -> promote d j = j) /\
+    (forall g, In g (go_files go) -> bits_stored_of g <= bits).
 Proof. intros gs st code embed st' go Hr. exact (conv_dtype gs st code embed st' go (reachable_wf st Hr)). Qed.
+
+Lemma result_type_facts :
+  (forall l l', (forall d, In d l <-> In d l') -> result_type l = result_type l') /\
+  (forall l d, In d l -> promote d (result_type l) = result_type l) /\
+  (forall a b, promote a b = promote b a) /\ (forall a, promote a a = a).
+Proof.
+  split; [exact result_type_set|]. split; [exact result_type_upper|].
+  destruct promote_laws as (H1 & H2 & _). split; assumption.
+Qed.
